@@ -2,6 +2,8 @@
 package router_address
 
 import (
+	"strings"
+
 	"github.com/go-i2p/logger"
 	"github.com/samber/oops"
 
@@ -116,20 +118,20 @@ func parseTransportType(ra *RouterAddress, routerData []byte) ([]byte, error) {
 
 // parseTransportOptions parses the transport options mapping from data.
 // Returns remaining data after parsing and any error encountered.
-// Propagates errors only when the mapping cannot be parsed (nil result).
-// Warnings about trailing data are expected in RouterAddress context and logged only.
+// Propagates every mapping error except the warning about trailing data, which is
+// expected in RouterAddress context (more stream data follows) and logged only.
 func parseTransportOptions(ra *RouterAddress, routerData []byte) ([]byte, error) {
 	transportOptions, remainder, errs := data.NewMapping(routerData)
+	ra.TransportOptions = transportOptions
 	for _, err := range errs {
 		log.WithFields(logger.Fields{
 			"at":     "(RouterAddress) parseTransportOptions",
 			"reason": "error parsing options",
 			"error":  err,
 		}).Error("error parsing RouterAddress")
-	}
-	ra.TransportOptions = transportOptions
-	if transportOptions == nil && len(errs) > 0 {
-		return remainder, oops.Errorf("error parsing RouterAddress options: %v", errs[0])
+		if !strings.Contains(err.Error(), "data exists beyond length of mapping") {
+			return remainder, oops.Errorf("error parsing RouterAddress options: %v", err)
+		}
 	}
 	return remainder, nil
 }
